@@ -34,8 +34,17 @@ class SimRib:
     def elig(d):
         return [e for e in d['entries'] if not e['filt'] and not e['nhinv']]
 
-    def paths(self, d):
-        return [(e['pid'], e['src'], e['tok']) for e in self.elig(d)]
+    def paths(self, d, marked=None):
+        """ranked candidates (pid, src, tok, mark); mark = the LLGR-stale flag of the source as
+        the consumers have been told so far (ghost of the model): the live flag, except inside
+        a restale_llgr batch, where the paths of the peer are marked one change at a time"""
+        out = []
+        for e in self.elig(d):
+            m = e['src'] in self.llgr
+            if marked is not None and e['src'] == marked[0]:
+                m = e['pid'] in marked[1]
+            out.append((e['pid'], e['src'], e['tok'], int(m)))
+        return out
 
     def best(self, d):
         l = self.elig(d)
@@ -116,9 +125,12 @@ class SimRib:
         return labels
 
     def restale_llgr(self, src):
-        labels = []
         has = any(e['src'] == src for d in self.dests.values() for e in d['entries'])
-        labels.append(('llgr', src, has or src in self.llgr))
+        if not has:
+            # nothing of the peer in the table: the flag is not touched, no change
+            return [('llgr', src, False)] if src not in self.llgr else [('llgrmark', src, [])]
+        already = src in self.llgr
+        sets = []
         for net in sorted(self.dests):
             d = self.dests[net]
             if not any(e['src'] == src for e in d['entries']):
@@ -130,10 +142,17 @@ class SimRib:
             d['entries'].sort(key=self.key)
             nb = self.best(d)
             nb = None if nb is None else nb['pid']
-            if ob != nb or any_unf:
-                labels.append(('set', net, ob != nb, any_unf, None, self.paths(d)))
-        return labels
-
+            marked = [e['pid'] for e in self.elig(d) if e['src'] == src]
+            best_marked = nb is not None and bool(marked) and marked[0] == nb
+            bc = ob != nb or best_marked
+            if bc or any_unf:
+                if not marked:
+                    sets.append((net, bc, any_unf, None, self.paths(d)))
+                else:
+                    for k, pid in enumerate(marked):
+                        done = set(marked[:k + 1]) if not already else set(marked)
+                        sets.append((net, bc and k == 0, True, pid, self.paths(d, (src, done))))
+        return [('llgrmark', src, sets)]
 
 def hidden_sources(cfg):
     """sources whose paths the neighbour never sees: its own address (echo), iBGP split
@@ -163,6 +182,7 @@ def translate(c):
         elif t == 'rem': out.append(rib.rem(o[1], o[2]))
         elif t == 'drop': out.append(rib.drop(o[1]))
         elif t == 'llgr': out.append(rib.restale_llgr(o[1]))
+        elif t == 'policy': out.append([('policy', o[1])])
         else: out.append([(t,)])
     return out
 
@@ -174,7 +194,13 @@ def refresh_race(c):
     chan = []           # queued (net, id)
     reg = False
     for ls in translate(c):
+        flat = []
         for l in ls:
+            if l[0] == 'llgrmark':
+                flat += [('set',) + tuple(x) for x in l[2]]
+            else:
+                flat.append(l)
+        for l in flat:
             t = l[0]
             if t in ('set', 'touch'):
                 if l[1] not in ids:
@@ -190,6 +216,8 @@ def refresh_race(c):
                 if chan: chan.pop(0)
             elif t == 'register':
                 chan, reg = [], True
+            elif t == 'unregister':
+                chan, reg = [], False
             elif t == 'refresh' and reg:
                 for net, i in chan:
                     for n2, i2 in ids.items():
@@ -198,18 +226,72 @@ def refresh_race(c):
     return False
 
 
+def paths_coq(ps):
+    return clist(['{| p_pid := %s; p_src := %s; p_tok := %s; p_mark := %s |}' % (cN(a), cN(b), cN(d), cbool(m))
+                  for a, b, d, m in ps])
+
+def untruthful(labels):
+    """python mirror of Spec/ExportTxSpec.v truthful_run on the RIB labels of a case (the labels are
+    compared with the changes the real table emits on every case, so this judges the real change
+    stream against the contract the theorems assume).  Returns None or a description."""
+    rib = {}           # net -> ranked list of (pid, src, tok, mark)
+    fl = set()
+    def tset(x, live_eq):
+        net, bc, ac, repl, paths = x
+        old = rib.get(net, [])
+        if not ac and paths != old: return 'any_changed=false but the candidate list changed (prefix %d)' % net
+        if not bc and paths[:1] != old[:1]: return 'best_changed=false but the best candidate changed (prefix %d)' % net
+        if len({p[0] for p in paths}) != len(paths): return 'duplicate path id (prefix %d)' % net
+        for p in paths:
+            for q in old:
+                if p[0] == q[0] and p != q and repl != p[0]:
+                    return 'path id %d of prefix %d changed without being the replaced path' % (p[0], net)
+            if p[3] and p[1] not in fl: return 'marker ahead of the flag'
+            if live_eq and bool(p[3]) != (p[1] in fl): return 'marker differs from the flag'
+        rib[net] = paths
+        return None
+    for l in labels:
+        t = l[0]
+        why = None
+        if t == 'set':
+            why = tset(l[1:], True)
+        elif t == 'touch':
+            rib.setdefault(l[1], [])
+        elif t == 'free':
+            if not l[2] and rib.get(l[1]): why = 'destination %d freed silently while it had candidates' % l[1]
+            rib.pop(l[1], None)
+        elif t == 'llgr':
+            if l[2] and l[1] not in fl: why = 'bare flag flip'
+        elif t == 'llgrmark':
+            fl.add(l[1])
+            for x in l[2]:
+                why = why or tset(x, False)
+            for net, ps in rib.items():
+                for p in ps:
+                    if bool(p[3]) != (p[1] in fl):
+                        why = why or ('LLGR-stale marking of source %d not reported for path id %d of prefix %d'
+                                      % (l[1], p[0], net))
+        if why:
+            return why
+    return None
+
+
 def label_coq(l):
     t = l[0]
     if t == 'set':
-        paths = clist(['{| p_pid := %s; p_src := %s; p_tok := %s |}' % (cN(a), cN(b), cN(d)) for a, b, d in l[5]])
-        return '(RibSet %s %s %s %s %s)' % (cN(l[1]), cbool(l[2]), cbool(l[3]), copt(None if l[4] is None else cN(l[4])), paths)
+        return '(RibSet %s %s %s %s %s)' % (cN(l[1]), cbool(l[2]), cbool(l[3]), copt(None if l[4] is None else cN(l[4])), paths_coq(l[5]))
+    if t == 'llgrmark':
+        return '(LlgrMark %s %s)' % (cN(l[1]), clist(['(%s, %s, %s, %s, %s)' % (
+            cN(x[0]), cbool(x[1]), cbool(x[2]), copt(None if x[3] is None else cN(x[3])), paths_coq(x[4])) for x in l[2]]))
     if t == 'touch': return '(RibTouch %s)' % cN(l[1])
     if t == 'free': return '(RibFree %s %s)' % (cN(l[1]), cbool(l[2]))
     if t == 'llgr': return '(LlgrFlip %s %s)' % (cN(l[1]), cbool(l[2]))
-    return {'deliver': 'Deliver', 'flush': 'Flush', 'register': 'Register', 'refresh': 'Refresh'}[t]
+    return {'deliver': 'Deliver', 'flush': 'Flush', 'register': 'Register', 'refresh': 'Refresh',
+            'unregister': 'Unregister'}[t] if t != 'policy' else '(PolicyChange %s)' % cN(l[1])
 
 
-OPC = {'ins': 0, 'rem': 1, 'drop': 2, 'llgr': 3, 'deliver': 4, 'flush': 5, 'register': 6, 'refresh': 7}
+OPC = {'ins': 0, 'rem': 1, 'drop': 2, 'llgr': 3, 'deliver': 4, 'flush': 5, 'register': 6, 'refresh': 7,
+       'unregister': 8, 'policy': 9}
 
 # what the code under verification currently does (see Model/ExportTx.v): how PendingTx
 # names an entry, and whether dump/refresh truncate before the visibility filters
@@ -224,7 +306,7 @@ class Prop:
                          'no_lost_withdrawal_outside_known', 'fresh_is_export_rules',
                          'no_lost_withdrawal_refuted_by_id_keying',
                          'quiescent_view_eq_fresh_refuted_truncated_dump',
-                         'quiescent_view_eq_fresh_refuted_llgr',
+                         'quiescent_view_eq_fresh_refuted_unreported_llgr',
                          'no_lost_withdrawal_refuted_refresh_race']
     correspondence_name = ('Model/ExportTx.v step vs table::Table + event::export::process_nlri_change + '
                            'peer_tx::PendingTx (harness/daemon/export_c01_hx.rs)')
@@ -248,7 +330,7 @@ class Prop:
         'addpath_tx = (effective_max > 1) is assumed (the FSM/codec agreement is property C16); the model and the '
         'correspondence cover the mismatch configuration, the theorems do not']
     assumptions = ['truthful change stream (Spec/ExportTxSpec.v truthful_run)',
-                   'no LLGR-stale marking of a source (open finding C01-llgr-stale-not-resent)',
+                   'LLGR_STALE marking does not decide acceptance by the export policy (pol_marks_after_accept)',
                    'route refresh processed with an empty event channel (open finding C01-refresh-race)']
 
     # ---- rendering
@@ -336,12 +418,23 @@ class Prop:
                 ops.append(('flush',))
             elif x < 0.97:
                 ops.append(('refresh',))
-            else:
+            elif x < 0.975:
+                ops.append(('policy', rng.choice([0, 1, 1])))
+                if rng.random() < 0.8:
+                    ops.append(('refresh',))      # soft reset out
+            elif x < 0.988:
                 ops.append(('register',))
+            else:
+                ops.append(('unregister',))
+                if rng.random() < 0.8:
+                    ops.append(('register',))
         # settle: deliver everything, flush
         pend = sum(1 for o in ops if o[0] in ('ins', 'rem')) + 4 * sum(1 for o in ops if o[0] in ('drop', 'llgr'))
         if rng.random() < 0.9:
-            ops += [('deliver',)] * pend + [('flush',)]
+            ops += [('deliver',)] * pend
+            if any(o[0] == 'policy' for o in ops):
+                ops.append(('refresh',))          # soft reset out with the channel drained
+            ops.append(('flush',))
         return ops
 
     def gen_cases(self, rng, tier):
@@ -405,11 +498,62 @@ class Prop:
         return [[o, self.project(o)] for o in m], ''
 
     def canon(self, case, obs):
-        return [o if o == [-1] else [x for x in o if x != [0, []]] for o in obs]
+        """silent RIB operations print nothing on the implementation side; the value of a
+        destination id is not compared (a change names its prefix; the mirror does not depend on
+        the numbering since PendingTx is keyed by prefix): that the ids of live destinations are
+        stable and pairwise distinct is judged by the oracle (id_clash)"""
+        out = []
+        for o in obs:
+            if o == [-1]:
+                out.append(o)
+                continue
+            r = []
+            for x in o:
+                if x == [0, []]:
+                    continue
+                if x[0] == 0:
+                    x = [0, [0]] + x[2:]
+                r.append(x)
+            out.append(r)
+        return out
+
+    @staticmethod
+    def id_clash(c, o):
+        """dest ids of the implementation's changes: a live destination keeps its id, two live
+        destinations never share one (liveness from the reference RIB: silent creations and
+        removals emit no change)"""
+        recs = [x for x in o if x[0] == 0 and x != [0, []]]
+        k = 0
+        ids = {}            # live net -> id (known once a change of it was seen)
+        for ls in translate(c):
+            for l in ls:
+                sets = [('set',) + tuple(x) for x in l[2]] if l[0] == 'llgrmark' else [l]
+                for m in sets:
+                    if m[0] == 'set' or (m[0] == 'free' and m[2]):
+                        if k >= len(recs):
+                            return None
+                        i, net = recs[k][1][0], recs[k][2]
+                        k += 1
+                        if net in ids and ids[net] != i:
+                            return 'destination %d changed its dest_id while it was live' % net
+                        for n2, i2 in ids.items():
+                            if n2 != net and i2 == i:
+                                return 'two live destinations (%d, %d) share dest_id %d' % (n2, net, i)
+                        ids[net] = i
+                    if m[0] == 'free':
+                        ids.pop(m[1], None)
+        return None
 
     # ---- Spec oracle on the implementation's observations
     def oracle(self, c, obs):
+        why = untruthful([l for ls in translate(c) for l in ls])
+        if why:
+            return 'change stream (as predicted by the reference RIB and matched by the table): ' + why
         for lvl, o in zip(('export-level', 'session-level'), obs):
+            if o != [-1]:
+                why = self.id_clash(c, o)
+                if why:
+                    return lvl + ' run, ' + why
             why = self.oracle1(c, o, lvl == 'session-level')
             if why:
                 return lvl + ' run, ' + why
@@ -419,9 +563,18 @@ class Prop:
         if obs == [-1]:
             return 'panic in the export path'
         established = False
+        dirty = False
         for k, o in enumerate(obs):
             if o[0] == 4:
                 established = True
+            if o[0] == 7:
+                established = False
+            if o[0] == 8:
+                dirty = True        # policy replaced: judged again after the soft reset out
+            if o[0] in (4, 5):
+                dirty = False
+            if dirty:
+                continue
             if not established:
                 continue            # the property speaks about established neighbours
             if o[0] == 3:
